@@ -296,6 +296,7 @@ fn env_open_commitment(_c: &Commitment, _v: &[u8]) -> bool {
             ENV_OPEN_LOG[ENV_OPEN_N] = v;
         }
         ENV_OPEN_N += 1;
+        ENV_OPEN_LAST = v;
     }
     v
 }
@@ -303,6 +304,7 @@ fn env_open_commitment(_c: &Commitment, _v: &[u8]) -> bool {
 /// Log of the verdicts env_open_commitment handed out (in call order).
 static mut ENV_OPEN_LOG: [bool; 4] = [false; 4];
 static mut ENV_OPEN_N: usize = 0;
+static mut ENV_OPEN_LAST: bool = true;
 
 fn open_log_reset() {
     unsafe {
@@ -759,3 +761,180 @@ fn c04_shared_rng_open_n2() {
     }
     std::mem::forget(r);
 }
+
+/// C10 - aBit result assembly (n = 3, own index 1, 2 returned bits out of 3 generated): share l
+/// carries bit x[l] and, for every peer k, exactly (MAC, key) number l of the OT results with
+/// k; the own slot is zero; the sacrificed objects are cut off.
+#[kani::proof]
+#[kani::unwind(6)]
+#[kani::stub(std::fmt::format, no_format)]
+fn c10_fabitn_result_n3() {
+    let x: [bool; 3] = [kani::any(), kani::any(), kani::any()];
+    let k0: [u128; 3] = [kani::any(), kani::any(), kani::any()];
+    let k2: [u128; 3] = [kani::any(), kani::any(), kani::any()];
+    let m0: [u128; 3] = [kani::any(), kani::any(), kani::any()];
+    let m2: [u128; 3] = [kani::any(), kani::any(), kani::any()];
+    let r = seg_fabitn_result(
+        1,
+        3,
+        2,
+        vec![x[0], x[1], x[2]],
+        vec![vec![k0[0], k0[1], k0[2]], vec![], vec![k2[0], k2[1], k2[2]]],
+        vec![vec![m0[0], m0[1], m0[2]], vec![], vec![m2[0], m2[1], m2[2]]],
+    );
+    let ok = r.is_ok();
+    assert!(ok, "C10:fabitn:result-assembly-Ok");
+    if let Ok(res) = &r {
+        assert!(res.len() == 2, "C10:fabitn:returns-the-first-l-objects");
+        let mut good = res.len() == 2;
+        let mut l = 0;
+        while l < 2 {
+            if res.len() == 2 {
+                let s = &res[l];
+                good &= s.0 == x[l] && s.1 .0.len() == 3;
+                if s.1 .0.len() == 3 {
+                    good &= s.1 .0[0] == (Mac(m0[l]), Key(k0[l]));
+                    good &= s.1 .0[1] == (Mac(0), Key(0));
+                    good &= s.1 .0[2] == (Mac(m2[l]), Key(k2[l]));
+                }
+            }
+            l += 1;
+        }
+        assert!(good, "C10:fabitn:share-l==(x[l], (mac_k[l], key_k[l]) for every peer k, own slot zero)");
+    }
+    kani::cover!(ok, "fabitn_result_reachable");
+    std::mem::forget(r);
+}
+
+/// C02/C10 - aAND, after the d-value round: the number of d-value vectors must match the number
+/// of buckets (InvalidLength otherwise); one triple per bucket.
+#[kani::proof]
+#[kani::unwind(6)]
+#[kani::stub(std::fmt::format, no_format)]
+fn c10_faand_combine_lengths() {
+    let sh = || Share(kani::any(), Auth(vec![(Mac(0), Key(0)), (Mac(kani::any()), Key(kani::any()))]));
+    let s = [sh(), sh(), sh(), sh(), sh(), sh()];
+    let b0: Bucket = vec![(&s[0], &s[1], &s[2]), (&s[3], &s[4], &s[5])];
+    let b1: Bucket = vec![(&s[3], &s[4], &s[5]), (&s[0], &s[1], &s[2])];
+    let nd: u8 = kani::any();
+    let d_values: Vec<Vec<bool>> = match nd {
+        0 => vec![],
+        1 => vec![vec![kani::any()]],
+        2 => vec![vec![kani::any()], vec![kani::any()]],
+        _ => vec![vec![kani::any()], vec![kani::any()], vec![kani::any()]],
+    };
+    let n_d = d_values.len();
+    let r = seg_faand_combine(0, 2, vec![b0, b1], d_values);
+    let ok = r.is_ok();
+    kani::cover!(ok, "faand_combine_ok_reachable");
+    kani::cover!(!ok, "faand_combine_err_reachable");
+    if let Ok(t) = &r {
+        assert!(n_d == 2, "C10:faand:one-d-value-vector-per-bucket-or-InvalidLength");
+        assert!(t.len() == 2, "C10:faand:one-triple-per-bucket");
+    }
+    std::mem::forget(r);
+    std::mem::forget(s);
+}
+
+fn env_commit(_v: &[u8]) -> Commitment {
+    Commitment([0u8; 32])
+}
+
+/// C10/C04 - the aShare consistency round end to end for honest parties, n = 3 (rho lowered to
+/// 2): every party builds its key sums d0/d1 and its MAC decommitment (step 3a, cut), party 0
+/// derives the value it opens from everybody's claimed bits (3c, cut), and party 0's final check
+/// (3d, cut) over ALL parties' decommitments and openings returns Ok - for all valid shares and
+/// global keys. This pins the byte layout of the decommitment (bit, then the MACs for every
+/// OTHER party in index order, big-endian) between producer and consumer, for every pair.
+#[kani::proof]
+#[kani::unwind(8)]
+#[kani::stub(std::fmt::format, no_format)]
+fn c10_fashare_round_honest_n3() {
+    let delta: [u128; 3] = [kani::any(), kani::any(), kani::any()];
+    // check objects r = 0, 1 ; bit[p][r] ; key[p][q][r] = p's key for q's bit
+    let bit: [[bool; 2]; 3] = [[kani::any(), kani::any()], [kani::any(), kani::any()], [kani::any(), kani::any()]];
+    let k2 = || -> [u128; 2] { [kani::any(), kani::any()] };
+    let z = [0u128; 2];
+    let key: [[[u128; 2]; 3]; 3] = [[z, k2(), k2()], [k2(), z, k2()], [k2(), k2(), z]];
+    let mac = |p: usize, q: usize, r: usize| key[q][p][r] ^ (if bit[p][r] { delta[q] } else { 0 });
+    let share = |p: usize, r: usize| -> Share {
+        Share(
+            bit[p][r],
+            Auth(vec![
+                (Mac(if p == 0 { 0 } else { mac(p, 0, r) }), Key(key[p][0][r])),
+                (Mac(if p == 1 { 0 } else { mac(p, 1, r) }), Key(key[p][1][r])),
+                (Mac(if p == 2 { 0 } else { mac(p, 2, r) }), Key(key[p][2][r])),
+            ]),
+        )
+    };
+    // l = 0: the two shares are exactly the check objects
+    let xs0 = vec![share(0, 0), share(0, 1)];
+    let xs1 = vec![share(1, 0), share(1, 1)];
+    let xs2 = vec![share(2, 0), share(2, 1)];
+    let a0 = seg_fashare_3a(0, 3, 0, Delta(delta[0]), &xs0);
+    let a1 = seg_fashare_3a(1, 3, 0, Delta(delta[1]), &xs1);
+    let a2 = seg_fashare_3a(2, 3, 0, Delta(delta[2]), &xs2);
+    let ok_a = a0.is_ok() && a1.is_ok() && a2.is_ok();
+    assert!(ok_a, "C10:fashare-round:step-3a-Ok");
+    if let (Ok((d0_0, d1_0, dm0)), Ok((d0_1, d1_1, dm1)), Ok((d0_2, d1_2, dm2))) = (a0, a1, a2) {
+        // what parties 1 and 2 open (honest step 3c at their side): d0 ^ (xor of the others' bits)*delta
+        let b1 = [bit[0][0] ^ bit[2][0], bit[0][1] ^ bit[2][1]];
+        let b2 = [bit[0][0] ^ bit[1][0], bit[0][1] ^ bit[1][1]];
+        let open1 = vec![if b1[0] { d1_1[0] } else { d0_1[0] }, if b1[1] { d1_1[1] } else { d0_1[1] }];
+        let open2 = vec![if b2[0] { d1_2[0] } else { d0_2[0] }, if b2[1] { d1_2[1] } else { d0_2[1] }];
+        let c = seg_fashare_3c(0, 3, vec![dm0.clone(), dm1.clone(), dm2.clone()], d0_0, d1_0);
+        assert!(c.is_ok(), "C10:fashare-round:step-3c-Ok-for-honest-decommitments");
+        let zc = Commitment([0u8; 32]);
+        let comm = vec![vec![(zc, zc, zc), (zc, zc, zc)], vec![(zc, zc, zc), (zc, zc, zc)], vec![(zc, zc, zc), (zc, zc, zc)]];
+        open_log_reset();
+        let d = seg_fashare_3d(0, 3, vec![dm0, dm1, dm2], vec![vec![], open1, open2], comm);
+        // the MAC-sum comparison must hold; the (arbitrary) commitment verdicts may still reject
+        let rejected_by_commitment = unsafe { ENV_OPEN_N >= 1 && !ENV_OPEN_LAST };
+        assert!(d.is_ok() || rejected_by_commitment, "C10:fashare-round:honest-openings-pass-the-MAC-sum-check(layout-consistent)");
+        kani::cover!(d.is_ok(), "fashare_round_ok_reachable");
+        std::mem::forget((c, d));
+    }
+    std::mem::forget((xs0, xs1, xs2));
+}
+
+/// C04/C10 (n = 4) - Beaver opening with three peers, one triple: Ok implies every peer's d and e
+/// MACs verify and the opened d, e are the XOR of ALL four contributions.
+fn beaver_check_n4(prop_own: u8) {
+    let delta = Delta(kani::any());
+    let dk: [u128; 4] = [0, kani::any(), kani::any(), kani::any()];
+    let ek: [u128; 4] = [0, kani::any(), kani::any(), kani::any()];
+    let own_d: bool = kani::any();
+    let own_e: bool = kani::any();
+    let pd: [bool; 4] = [false, kani::any(), kani::any(), kani::any()];
+    let pe: [bool; 4] = [false, kani::any(), kani::any(), kani::any()];
+    let pdm: [u128; 4] = [0, kani::any(), kani::any(), kani::any()];
+    let pem: [u128; 4] = [0, kani::any(), kani::any(), kani::any()];
+    let sh = |b: bool, k: &[u128; 4]| Share(b, Auth(vec![(Mac(0), Key(0)), (Mac(kani::any()), Key(k[1])), (Mac(kani::any()), Key(k[2])), (Mac(kani::any()), Key(k[3]))]));
+    let msg = |p: usize| vec![(pd[p], pe[p], Mac(pdm[p]), Mac(pem[p]))];
+    let r = seg_beaver_check(delta, 0, 4, vec![(sh(own_d, &dk), sh(own_e, &ek))], vec![(own_d, own_e, Mac(0), Mac(0))], vec![vec![], msg(1), msg(2), msg(3)]);
+    let ok = r.is_ok();
+    kani::cover!(ok, "beaver_n4_ok_reachable");
+    kani::cover!(!ok, "beaver_n4_err_reachable");
+    if let Ok(v) = &r {
+        let mut p = 1;
+        while p < 4 {
+            pa!(prop_own, 4, pdm[p] == dk[p] ^ (if pd[p] { delta.0 } else { 0 }) && pem[p] == ek[p] ^ (if pe[p] { delta.0 } else { 0 }), "C04:beaver-n4:MACs-of-d-and-e-verified-for-every-peer");
+            p += 1;
+        }
+        pa!(prop_own, 10, v.len() == 1 && v[0].0 == (own_d ^ pd[1] ^ pd[2] ^ pd[3]) && v[0].1 == (own_e ^ pe[1] ^ pe[2] ^ pe[3]), "C10:beaver-n4:opened-d,e==xor-of-ALL-contributions");
+    }
+    std::mem::forget(r);
+}
+
+macro_rules! beaver_check_n4_variant {
+    ($name:ident, $own:expr) => {
+        #[kani::proof]
+        #[kani::unwind(6)]
+        #[kani::stub(std::fmt::format, no_format)]
+        fn $name() {
+            beaver_check_n4($own);
+        }
+    };
+}
+beaver_check_n4_variant!(c04_beaver_check_n4, 4);
+beaver_check_n4_variant!(c04_beaver_check_n4__c10, 10);
